@@ -112,6 +112,8 @@ pub fn bases(rng: &mut Rng, count: usize) -> Vec<Base> {
         ("heavy_tail", 3, 16, 64, 64, None),
         ("sine_small", 1, 16, 192, 192, None),
         ("impulses", 1, 16, 128, 130, Some(3)),
+        ("sine_noise", 1, 16, 256, 300, None),
+        ("sine_noise", 2, 24, 192, 200, None),
     ];
     while specs.len() < count {
         let fam = *rng.pick(&gen::FAMILIES);
@@ -122,7 +124,7 @@ pub fn bases(rng: &mut Rng, count: usize) -> Vec<Base> {
         specs.push((fam, ch, bps, bs, len.min(400 / ch), None));
     }
     for (i, (fam, ch, bps, bs, len, maxp)) in specs.into_iter().take(count).enumerate() {
-        let mut cfg = if i < 10 { Cfg::default() } else { gen::random_valid_cfg(rng) };
+        let mut cfg = if i < 12 { Cfg::default() } else { gen::random_valid_cfg(rng) };
         cfg.block_size = bs;
         if let Some(m) = maxp {
             cfg.max_parameter = m;
@@ -175,9 +177,12 @@ fn summarize(out: &str) -> (usize, usize, usize, usize, usize) {
     (c('e'), c('s'), c('d'), c('p'), c('q'))
 }
 
-/// First offending mutant index of an outcome string (`d`, `p`, `q`), if any.
-fn first_bad(out: &str) -> Option<(usize, char)> {
-    out.chars().enumerate().find(|(_, c)| matches!(c, 'd' | 'p' | 'q'))
+/// First offending mutant index of an outcome string, if any: a panic anywhere (`p`, `q`), or an
+/// accepted mutant with different audio (`d`) at index >= `d_from` (the property speaks about
+/// alterations INSIDE A FRAME: STREAMINFO is not protected by a check sum, so flipping e.g. a
+/// sample-rate bit there is accepted by every FLAC parser).
+fn first_bad(out: &str, d_from: usize) -> Option<(usize, char)> {
+    out.chars().enumerate().find(|(i, c)| matches!(c, 'p' | 'q') || (*c == 'd' && *i >= d_from))
 }
 
 pub fn generate(seed: u64, nbases: usize, burst_stride: usize, nrandom: usize, out: &mut dyn FnMut(String)) {
@@ -196,8 +201,8 @@ pub fn generate(seed: u64, nbases: usize, burst_stride: usize, nrandom: usize, o
     for b in &bs {
         let info = (b.pcm.rate, b.pcm.channels, b.pcm.bps);
         let head = format!(
-            "parser id={} cls={}|b{}c{}|{} cfg={} ch={} bps={} rate={} len={} pcm={} base={}",
-            b.id, b.pcm.family, b.pcm.bps, b.pcm.channels, b.kinds, b.cfg.render(), b.pcm.channels, b.pcm.bps, b.pcm.rate,
+            "parser id={} prof={} cls={}|b{}c{}|{} cfg={} ch={} bps={} rate={} len={} pcm={} base={}",
+            b.id, if cfg!(debug_assertions) { "debug" } else { "release" }, b.pcm.family, b.pcm.bps, b.pcm.channels, b.kinds, b.cfg.render(), b.pcm.channels, b.pcm.bps, b.pcm.rate,
             b.pcm.len(), ints(&b.pcm.data), hex(&b.bytes)
         );
         let o15 = c15_oracle(b);
@@ -243,7 +248,7 @@ pub fn generate(seed: u64, nbases: usize, burst_stride: usize, nrandom: usize, o
             truncs.push(outcome(&b.bytes[..n], &b.pcm.data, info));
         }
         add(&truncs, &mut tot);
-        let o16 = match first_bad(&flips).map(|x| ("flip", x)).or(first_bad(&bursts).map(|x| ("burst", x))).or(first_bad(&truncs).map(|x| ("trunc", x))) {
+        let o16 = match first_bad(&flips, 42 * 8).map(|x| ("flip", x)).or(first_bad(&bursts, 0).map(|x| ("burst", x))).or(first_bad(&truncs, usize::MAX).map(|x| ("trunc", x))) {
             None => "ok".to_string(),
             Some((kind, (i, c))) => format!(
                 "fail:{}_{}_{}",
@@ -292,7 +297,7 @@ pub fn generate(seed: u64, nbases: usize, burst_stride: usize, nrandom: usize, o
         // a random string has no original: `d`/`s` just mean "accepted"
         let o16 = if o == 'p' { "fail:parser_panic_random".to_string() } else { "ok".to_string() };
         tot[if o == 'e' { 0 } else if o == 'p' { 3 } else if o == 'q' { 4 } else { 2 }] += 1;
-        out(format!("parser id=r{i} cls=random|{} rand={} impl={} o_c15=ok o_c16={o16}", i % 4, hex(&bytes), if o == 's' || o == 'd' || o == 'q' { 'a' } else { o }));
+        out(format!("parser id=r{i} prof={} cls=random|{} rand={} impl={} o_c15=ok o_c16={o16}", if cfg!(debug_assertions) { "debug" } else { "release" }, i % 4, hex(&bytes), if o == 's' || o == 'd' || o == 'q' { 'a' } else { o }));
     }
     out(format!("#stat mut_error={} mut_same={} mut_different={} mut_parser_panic={} mut_decoder_panic={}", tot[0], tot[1], tot[2], tot[3], tot[4]));
     if burst_stride == 1 {
